@@ -158,7 +158,8 @@ def gen(tier, rng):
             for i in range(ns):
                 if applicable(prep, [i]):
                     yield {"doc": doc, "prep": prep, "stack": [i], "write": False}
-            yield {"doc": doc, "prep": prep, "stack": [], "write": True}
+            for wm in ("plain", "prepend_empty", "prepend_copy", "file"):
+                yield {"doc": doc, "prep": prep, "stack": [], "write": True, "wmode": wm}
     n = 400 if tier == "quick" else 6000
     for _ in range(n):
         if rng.random() < 0.5:
@@ -171,7 +172,8 @@ def gen(tier, rng):
         prep = rng.choice(PREPS)
         if not applicable(prep, st):
             continue
-        yield {"doc": doc, "prep": prep, "stack": st, "write": rng.random() < 0.25}
+        yield {"doc": doc, "prep": prep, "stack": st, "write": rng.random() < 0.25,
+               "wmode": rng.choice(["plain", "prepend_empty", "prepend_copy", "file"])}
 
 
 # ---------------------------------------------------------------------------------------------------
@@ -230,9 +232,22 @@ def observe(case):
         out = specs()[i][2]().transform(out)
     texts = None
     if case["write"]:
-        t1 = bibtexparser.write_string(out, bibtex_format=fmt)
-        t2 = bibtexparser.write_string(out, bibtex_format=fmt)
-        texts = (t1, t2)
+        # every way of asking for the default write stack must leave the library alone
+        wm = case.get("wmode", "plain")
+        if wm == "file":
+            import io
+            b1, b2 = io.StringIO(), io.StringIO()
+            bibtexparser.write_file(b1, out, append_middleware=[], bibtex_format=fmt)
+            bibtexparser.write_file(b2, out, append_middleware=[], bibtex_format=fmt)
+            texts = (b1.getvalue(), b2.getvalue())
+        else:
+            kw = {"plain": {}, "prepend_empty": {"prepend_middleware": []},
+                  "prepend_copy": {"prepend_middleware": [specs()[10][2]()]}}[wm]
+            t1 = bibtexparser.write_string(out, bibtex_format=fmt, **kw)
+            kw = {"plain": {}, "prepend_empty": {"prepend_middleware": []},
+                  "prepend_copy": {"prepend_middleware": [specs()[10][2]()]}}[wm]
+            t2 = bibtexparser.write_string(out, bibtex_format=fmt, **kw)
+            texts = (t1, t2)
     after_sig, _, _ = graph([lib, fmt])
     unchanged = before_sig == after_sig
     detail = ""
